@@ -67,3 +67,109 @@ def scanner(name, pred, negate=False):
 
 scanner("extract_spaces", "ws")
 scanner("extract_until_spaces", "notws", negate=True)
+
+# ------------------------------------------------------------------------------------------------ C05: positions
+MT = "pymarkdown/tokens/markdown_token.py::MarkdownToken."
+RPK = "pymarkdown/plugin_manager/rule_plugin.py::RulePlugin."
+PSCK = "pymarkdown/plugin_manager/plugin_scan_context.py::PluginScanContext."
+from pyvc.spec import REGISTRY as _R
+_R["$fields"].types.update({"PositionMarker.line_number": "int", "PositionMarker.index_number": "int", "PositionMarker.index_indent": "int",
+                            "PluginDetails.plugin_id": "str", "PluginDetails.plugin_name": "str", "PluginDetails.plugin_description": "str",
+                            "MarkdownToken._MarkdownToken__line_number": "int", "MarkdownToken._MarkdownToken__column_number": "int"})
+
+register(Contract(
+    key=MT + "__init__", properties=["C05"],
+    types={"position_marker": "Optional[PositionMarker]"},
+    # a token built from a position marker sits at the marker's line and at column index + indent + 1 (1-based);
+    # otherwise at exactly the line / column it was given
+    ensures=["implies(position_marker is not None, self.line_number == position_marker.line_number and "
+             "self.column_number == position_marker.index_number + position_marker.index_indent + 1)",
+             "implies(position_marker is None, self.line_number == line_number and self.column_number == column_number)",
+             "self.token_name is token_name"],
+    modifies=["self.__token_name", "self.__token_class", "self.__extra_data", "self.__line_number", "self.__column_number",
+              "self.__is_extension", "self.__requires_end_token", "self.__can_force_close", "self.__is_special"],
+))
+
+ADD = Assumed(PSCK + "add_triggered_rule[recorded]", params=["scan_file", "line_number", "column_number", "rule_id", "rule_name",
+                                                             "rule_description", "extra_error_information", "does_support_fix"],
+              pure=True, raises=[Raises("BadPluginError")],
+              effects=["g_reports.append((scan_file, line_number, column_number, rule_id, extra_error_information))"],
+              why="PluginScanContext.add_triggered_rule (its own contract is under C07); ghost g_reports records the call")
+DETAILS = Assumed(RPK + "get_details", returns="PluginDetails", pure=True, why="static description of the rule (id, names, description)")
+register(DETAILS)
+
+register(Contract(
+    key=RPK + "report_next_token_error", properties=["C05", "C07"],
+    ghost={"g_reports": "List[Any]"},
+    calls={"context.add_triggered_rule": ADD},
+    types={"leaf_token": "SetextHeadingMarkdownToken"},
+    ensures=[
+        # exactly one report, for the scanned file, at the token's own (or original) position plus the stated deltas:
+        # the line/column a user sees are copied from the token
+        "len(g_reports) == old(len(g_reports)) + 1",
+        "g_reports[len(g_reports) - 1][0] is context.scan_file",
+        "implies(not use_original_position, g_reports[len(g_reports) - 1][1] == token.line_number + line_number_delta)",
+        "implies(not use_original_position and column_number_delta >= 0, g_reports[len(g_reports) - 1][2] == token.column_number + column_number_delta)",
+        "implies(column_number_delta < 0, g_reports[len(g_reports) - 1][2] == -column_number_delta)",
+        "g_reports[len(g_reports) - 1][4] is extra_error_information",
+    ],
+    raises=[Raises("BadPluginError")],
+    modifies=["g_reports.$list"],
+))
+
+register(Contract(
+    key=RPK + "report_next_line_error", properties=["C05", "C07"],
+    ghost={"g_reports": "List[Any]"},
+    calls={"context.add_triggered_rule": ADD},
+    ensures=["len(g_reports) == old(len(g_reports)) + 1",
+             "g_reports[len(g_reports) - 1][1] == context.line_number + line_number_delta",
+             "g_reports[len(g_reports) - 1][2] == column_number",
+             "g_reports[len(g_reports) - 1][0] is context.scan_file"],
+    raises=[Raises("BadPluginError")],
+    modifies=["g_reports.$list"],
+))
+
+# collect_while_character: count and end index of a run of one character
+register(Contract(
+    key=PH + "collect_while_character", properties=["C05"], pure=True,
+    requires=["len(match_character) == 1"],
+    ensures=[
+        "(result[0] is None) == (not (0 <= start_index and start_index <= len(source_string)))", "(result[1] is None) == (result[0] is None)",
+        "implies(result[0] is not None, result[1] == start_index + result[0] and result[0] >= 0 and result[1] <= len(source_string))",
+        "implies(result[0] is not None, forall(lambda k: char_at(source_string, k) == char_at(match_character, 0), start_index, result[1]))",
+        "implies(result[0] is not None and result[1] < len(source_string), char_at(source_string, result[1]) != char_at(match_character, 0))",
+    ],
+    loops={0: Loop(invariant=["start_index <= index and index <= source_string_size", "source_string_size == len(source_string)",
+                              "forall(lambda k: char_at(source_string, k) == char_at(match_character, 0), start_index, index)"],
+                   variant="source_string_size - index")},
+))
+
+# str.find for a one-character needle: the defining properties (used by adjust_for_newlines)
+FIND_NL = Assumed("str.find('\\n', start)", params=["sub", "start"], returns="int", pure=True,
+                  ensures=["result == -1 or (start <= result and result < len(self) and char_at(self, result) == 10)",
+                           "implies(result == -1, forall(lambda k: char_at(self, k) != 10, start, len(self)))",
+                           "implies(result != -1, forall(lambda k: char_at(self, k) != 10, start, result))"],
+                  why="str.find(ch, start) for start >= 0: index of the first occurrence at or after start, else -1")
+
+register(Contract(
+    key=PH + "adjust_for_newlines", properties=["C05"], pure=True,
+    calls={"source_string.find": FIND_NL},
+    requires=["0 <= start_index and start_index <= end_index and end_index <= len(source_string)"],
+    ensures=[
+        # no newline in [start, end): the column moves by end_index and the line does not change
+        "implies(forall(lambda k: char_at(source_string, k) != 10, start_index, end_index), result[0] == end_index and result[1] == 0)",
+        # otherwise the column restarts after the LAST newline in range: -(end - last_newline), and lines were added
+        "implies(exists(lambda k: char_at(source_string, k) == 10, start_index, end_index), result[1] >= 1 and result[0] < 0 and "
+        "start_index <= end_index + result[0] and char_at(source_string, end_index + result[0]) == 10 and "
+        "forall(lambda k: char_at(source_string, k) != 10, end_index + result[0] + 1, end_index))",
+    ],
+    loops={0: Loop(invariant=[
+        "newline_index == -1 or (start_index <= newline_index and newline_index < len(source_string) and char_at(source_string, newline_index) == 10)",
+        "line_adjust >= 0",
+        "implies(line_adjust == 0, col_adjust == end_index and (forall(lambda k: char_at(source_string, k) != 10, start_index, newline_index) if newline_index != -1 "
+        "else forall(lambda k: char_at(source_string, k) != 10, start_index, len(source_string))))",
+        "implies(line_adjust > 0, col_adjust < 0 and start_index <= end_index + col_adjust and end_index + col_adjust < end_index and char_at(source_string, end_index + col_adjust) == 10 and "
+        "(forall(lambda k: char_at(source_string, k) != 10, end_index + col_adjust + 1, newline_index) if newline_index != -1 "
+        "else forall(lambda k: char_at(source_string, k) != 10, end_index + col_adjust + 1, len(source_string))))",
+    ])},
+))
